@@ -210,12 +210,13 @@ def run_case(n, c):
         known_names = {s_.shortName for s_ in dmx.demultiplexingStrategies}
         if 'Strategy\tReads\n' in lg:
             for line in lg.split('Strategy\tReads\n', 1)[1].splitlines():
-                if '\t' in line:
-                    a, b = line.rsplit('\t', 1)
-                    # only the per-strategy yield lines are constrained by the property; other informational
-                    # 'key<TAB>number' lines a log may carry are not strategy counters
-                    if a in known_names and re.fullmatch(r'\d+', b.strip()):
-                        ly[a] = int(b)
+                # the yield table = the 'strategy<TAB>count' lines that directly follow its header; it ends at the first
+                # line of another shape (further informational sections of the log are not strategy yield counters)
+                a, _, b = line.rpartition('\t')
+                if a in known_names and re.fullmatch(r'\d+', b.strip()):
+                    ly[a] = int(b)
+                else:
+                    break
         res['log'] = {'processed': int(m.group(1)) if m else None, 'yields': ly} if log is not None else None
         outs = read_outputs(d)
         res['out_files'] = outs
@@ -343,6 +344,8 @@ def run_main_case(n, c):
                 a, b = line.rsplit('\t', 1)
                 if a in known_names and re.fullmatch(r'\d+', b.strip()):
                     ly[a] = ly.get(a, 0) + int(b)
+                else:
+                    break
         if crash or not tot or 'Demultiplexing finished' not in lg:
             res['result'] = {'crash': crash or 'NoLog'}
         else:
